@@ -372,6 +372,15 @@ func generate(thorough bool, emit func(kase)) {
 			hdr2 := []byte{22, 3, 3, byte(l >> 8), byte(l)}
 			emit(kase{Family: "backend-declared-length-hs", Desc: fmt.Sprintf("%s %d", f.name, l), Keys: true, First: f.rec, Ops: []op{{Dir: 'b', Data: append(hdr2, make([]byte, 39000)...)}, {Dir: 'b', Data: make([]byte, 39000)}}})
 		}
+		// a ServerHello that announces a long body and continues over many full handshake records: what the Conn keeps of a
+		// fragmented ServerHello is bounded by the largest handshake message, not by what the backend announces
+		for _, l := range []int{65536, 65537, 1 << 20, 0xffffff} {
+			ops := []op{{Dir: 'b', Data: tlsref.Record(22, 0x0303, append([]byte{2, byte(l >> 16), byte(l >> 8), byte(l)}, make([]byte, 100)...))}}
+			for i := 0; i < 40; i++ {
+				ops = append(ops, op{Dir: 'b', Data: tlsref.Record(22, 0x0303, make([]byte, 16384))})
+			}
+			emit(kase{Family: "backend-fragmented-serverhello-declared", Desc: fmt.Sprintf("%s %d", f.name, l), Keys: true, First: f.rec, Ops: ops})
+		}
 		// many small complete records in one large Write, and a long run of partial writes: retained memory must stay bounded
 		var many []byte
 		for i := 0; i < 3000; i++ {
